@@ -14,7 +14,7 @@ def run(tier):
     rt = os.path.join(cargo_build("rt"), "rt")
     j1, n1 = lib.gen_step(c, "Gen_Feed", "Gen_Feed%s.cfg" % sfx, "gen_feed")
     b1, s1 = lib.replay_step(c, rt, ["feed"], j1, parts=8, what="callback/iterator glue diverges from the specification")
-    n = 300 if quick else 5000
+    n = 200 if quick else 4000
     j2, n2 = lib.gen_step(c, "Gen_Feed", "Gen_Feed_sim.cfg", "gen_feed_sim", simulate="num=%d" % n, workers=4, seed_=lib.seed())
     b2, s2 = lib.replay_step(c, rt, ["feed"], j2, parts=4, what="callback/iterator glue diverges from the specification (long behaviour)")
     nfiles, events = (2, 3000) if quick else (8, 30000)
